@@ -68,7 +68,7 @@ pub fn wl_c13(seed: u64, tier: &str) -> Vec<Vec<Value>> {
         }
         // hash_to_field for every field and several counts
         for f in ["Fq", "Fr", "Fq2"].iter() {
-            for count in [0usize, 1, 2, 5, 11].iter() {
+            for count in [0usize, 1, 2, 5, 11, 40, 127, 128].iter() {
                 let ml = *r.pick(&msg_lens);
                 let dl = 1 + r.below(60) as usize;
                 ops.push(json!({"op": "h2f", "f": f, "x": x, "msg": bytes_to_j(&r.bytes(ml)),
